@@ -620,6 +620,8 @@ pub struct World {
     pub total_steps: u64,
     pub step_budget: u64,
     pub budget_exhausted: bool,
+    /// Delivery delay of routed multicast between daemons (ms).
+    pub latency: u64,
 }
 
 impl World {
@@ -633,6 +635,7 @@ impl World {
             total_steps: 0,
             step_budget: 400_000,
             budget_exhausted: false,
+            latency: 0,
         }
     }
 
@@ -665,8 +668,8 @@ impl World {
                 }
             }
             for (d, i) in targets {
-                let now = self.now;
-                self.schedule(now, d, i, src, tx.bytes.clone());
+                let at = self.now + self.latency;
+                self.schedule(at, d, i, src, tx.bytes.clone());
             }
         }
     }
